@@ -12,7 +12,7 @@ import struct
 
 from ..core import Ctx
 from ..match import arg, call_name, calls, local_defs, rchain, resolve, single_def
-from ..model import NOCONST, AnalysisError, ClassInfo, FuncInfo, ancestors, chain, clone, const_value, enclosing_stmt, norm, strip_cast, walk_no_nested
+from ..model import NOCONST, AnalysisError, ClassInfo, FuncInfo, ancestors, chain, clone, const_value, enclosing_stmt, norm, set_parents, strip_cast, walk_no_nested
 
 SER = "ipv8/messaging/serialization.py"
 
@@ -73,12 +73,18 @@ def const_display(repo, fi: FuncInfo, k: ClassInfo | None, e: ast.AST) -> ast.AS
     def is_local(name: str) -> bool:
         return name in fi.params() or bool(local_defs(fi, name))
     e = strip_cast(e)
-    for _ in range(4):
+    for _ in range(7):
         if isinstance(e, ast.Call) and chain(e.func) in _WRAPPERS and len(e.args) == 1 and not e.keywords:
             e = strip_cast(e.args[0])
             continue
         if isinstance(e, (ast.Tuple, ast.List, ast.Dict, ast.Set)):
             return e
+        if isinstance(e, (ast.DictComp, ast.ListComp, ast.GeneratorExp, ast.SetComp)):
+            # a table DERIVED from another constant table: `{f.type_byte: f for f in _FAMILIES}`, `tuple(1 << s for s in range(7, -1, -1))`
+            cache = repo.__dict__.setdefault("_c02_comprehension_tables", {})
+            if id(e) not in cache:
+                cache[id(e)] = (e, _expand_comprehension(repo, fi, k, e, is_local))       # (the node is kept alive with its result)
+            return cache[id(e)][1]
         if isinstance(e, ast.Name) and not is_local(e.id):
             r = repo.resolve_name(fi.module, e.id)
             if isinstance(r, tuple) and r[0] == "const":
@@ -220,6 +226,276 @@ def record_fields_of_callee(repo, module, func: ast.AST, is_local=None):
     return None
 
 
+_PURE_CTOR_CALLS = ("Struct", "struct.Struct", "calcsize", "struct.calcsize", "len", "str", "int")
+
+
+def computed_record_fields(k: ClassInfo):
+    """
+    (parameters, defaults, [(attribute, expression over the parameters)]) when class k is an immutable-style record whose constructor only
+    stores values COMPUTED from its parameters by pure expressions (`self.body = Struct(f">{host_size}sH")`, `self.tag = tag`): then
+    `K(x, y).body` IS that expression with x, y in place of the parameters.  None when the class does anything else.
+    """
+    if len([c for c in k.mro() if c.name != "object"]) != 1 or k.base_names and set(k.base_names) - {"object"}:
+        return None
+    if any(k.lookup(n) is not None for n in ("__new__", "__getattr__", "__getattribute__", "__setattr__", "__post_init__")) or k.node.decorator_list:
+        return None
+    init = k.methods.get("__init__")
+    if init is None:
+        return None
+    a = init.node.args
+    if a.vararg is not None or a.kwarg is not None or a.kwonlyargs:
+        return None
+    params = [p.arg for p in a.posonlyargs + a.args]
+    me, params = params[0], params[1:]
+    defaults = dict(zip(params[len(params) - len(a.defaults):], a.defaults)) if a.defaults else {}
+    items: list[tuple[str, ast.AST]] = []
+    for st in init.node.body:
+        if isinstance(st, ast.Expr) and isinstance(st.value, ast.Constant):
+            continue
+        tg = st.targets[0] if isinstance(st, ast.Assign) and len(st.targets) == 1 else st.target if isinstance(st, ast.AnnAssign) else None
+        v = strip_cast(st.value) if isinstance(st, (ast.Assign, ast.AnnAssign)) and st.value is not None else None
+        if not (isinstance(tg, ast.Attribute) and isinstance(tg.value, ast.Name) and tg.value.id == me and v is not None) or any(x == tg.attr for x, _ in items):
+            return None
+        for n in ast.walk(v):
+            if isinstance(n, ast.Name) and n.id == me:
+                return None
+            if isinstance(n, (ast.Lambda, ast.Await, ast.NamedExpr, ast.ListComp, ast.GeneratorExp, ast.SetComp, ast.DictComp, ast.Yield, ast.YieldFrom, ast.Starred)):
+                return None
+            if isinstance(n, ast.Call) and (chain(n.func) not in _PURE_CTOR_CALLS or n.keywords):
+                return None
+        items.append((tg.attr, v))
+    if not items:
+        return None
+    names = {x for x, _ in items}
+    for m in k.methods.values():
+        if m.name in names:
+            return None
+        if m is init:
+            continue
+        for n in walk_no_nested(m.node):
+            if isinstance(n, ast.Attribute) and isinstance(n.ctx, (ast.Store, ast.Del)) and n.attr in names:
+                return None
+    if any(x in k.attrs for x in names):
+        return None
+    return params, defaults, items
+
+
+def fold_consts(repo, module, e: ast.AST) -> ast.AST:
+    """e (a fresh copy) with sub-expressions over literals folded: f">{4}sH" -> ">4sH", 1 << 7 -> 128, ">" + "B" -> ">B" (what Python computes)."""
+    def lit(x):
+        v = const_value(x)
+        return v if isinstance(v, (int, str)) and not isinstance(v, bool) else NOCONST
+
+    class F(ast.NodeTransformer):
+        def visit_JoinedStr(self, n):
+            self.generic_visit(n)
+            parts = []
+            for v in n.values:
+                if isinstance(v, ast.Constant) and isinstance(v.value, str):
+                    parts.append(v.value)
+                    continue
+                if isinstance(v, ast.FormattedValue) and v.conversion == -1 and v.format_spec is None:
+                    c = lit(v.value)
+                    if c is NOCONST and repo is not None and isinstance(v.value, (ast.Name, ast.Attribute)):
+                        c = repo.resolve_const(module, v.value)
+                    if isinstance(c, (int, str)) and not isinstance(c, bool):
+                        parts.append(str(c))
+                        continue
+                return n
+            return ast.copy_location(ast.Constant(value="".join(parts)), n)
+
+        def visit_BinOp(self, n):
+            self.generic_visit(n)
+            l, r = lit(n.left), lit(n.right)
+            if l is NOCONST or r is NOCONST:
+                return n
+            try:
+                if isinstance(l, int) and isinstance(r, int):
+                    op = {ast.Add: operator.add, ast.Sub: operator.sub, ast.Mult: operator.mul, ast.LShift: operator.lshift, ast.RShift: operator.rshift,
+                          ast.BitOr: operator.or_, ast.BitAnd: operator.and_, ast.BitXor: operator.xor, ast.FloorDiv: operator.floordiv, ast.Mod: operator.mod,
+                          ast.Pow: operator.pow}.get(type(n.op))
+                    if op is None or (isinstance(n.op, (ast.LShift, ast.Pow)) and not 0 <= r <= 64):
+                        return n
+                    return ast.copy_location(ast.Constant(value=op(l, r)), n)
+                if isinstance(l, str) and isinstance(r, str) and isinstance(n.op, ast.Add):
+                    return ast.copy_location(ast.Constant(value=l + r), n)
+                if isinstance(l, str) and isinstance(r, int) and isinstance(n.op, ast.Mult) and 0 <= r <= 64:
+                    return ast.copy_location(ast.Constant(value=l * r), n)
+                if isinstance(l, str) and isinstance(n.op, ast.Mod) and re.fullmatch(r"(?:[^%]|%[ds])*", l) and l.count("%") == 1:
+                    return ast.copy_location(ast.Constant(value=l % r), n)
+            except (ArithmeticError, ValueError, TypeError):
+                return n
+            return n
+    return ast.fix_missing_locations(F().visit(e))
+
+
+class _SubstNames(ast.NodeTransformer):
+    def __init__(self, mapping: dict[str, ast.AST]) -> None:
+        self.mapping = mapping
+
+    def visit_Name(self, n: ast.Name):
+        if isinstance(n.ctx, ast.Load) and n.id in self.mapping:
+            return clone(self.mapping[n.id])
+        return n
+
+
+def computed_display_items(repo, module, e: ast.Call, is_local=None):
+    """("object", [(attribute, expression)]) for a display `K(x, y)` of a computed record class (see computed_record_fields); else None."""
+    func = strip_cast(e.func)
+    if isinstance(func, ast.Name) and is_local is not None and is_local(func.id):
+        return None
+    if any(isinstance(a, ast.Starred) for a in e.args) or any(kw.arg is None for kw in e.keywords):
+        return None
+    k = repo.resolve_class_expr(module, func)
+    if k is None:
+        return None
+    cache = repo.__dict__.setdefault("_c02_computed_records", {})
+    if k not in cache:
+        cache[k] = computed_record_fields(k) if record_class_fields(k) is None else None
+    got = cache[k]
+    if got is None:
+        return None
+    params, defaults, items = got
+    if len(e.args) > len(params):
+        return None
+    given = dict(zip(params, e.args))
+    for kw in e.keywords:
+        if kw.arg in given or kw.arg not in params:
+            return None
+        given[kw.arg] = kw.value
+    for p_ in params:
+        if p_ not in given:
+            if p_ not in defaults:
+                return None
+            given[p_] = defaults[p_]
+    given = {p_: strip_cast(v) for p_, v in given.items()}
+    return "object", [(attr, fold_consts(repo, k.module, _SubstNames(given).visit(clone(t)))) for attr, t in items]
+
+
+def record_class_of_display(repo, module, e: ast.AST, is_local=None) -> ClassInfo | None:
+    """class K of /repo when e is a display `K(..)` of a plain or computed record class"""
+    e = strip_cast(e)
+    if not isinstance(e, ast.Call):
+        return None
+    if record_fields_of_callee(repo, module, e.func, is_local) is None and computed_display_items(repo, module, e, is_local) is None:
+        return None
+    return repo.resolve_class_expr(module, e.func)
+
+
+def display_items(repo, module, e: ast.AST, is_local=None):
+    """(kind, [(attribute | None, expr)]) of a tuple display / a display of a plain or computed record class; None otherwise"""
+    e = strip_cast(e)
+    if isinstance(e, (ast.Tuple, ast.List)):
+        return None if any(isinstance(x, ast.Starred) for x in e.elts) else ("tuple", [(None, x) for x in e.elts])
+    if not isinstance(e, ast.Call) or any(isinstance(a, ast.Starred) for a in e.args) or any(kw.arg is None for kw in e.keywords):
+        return None
+    got = record_fields_of_callee(repo, module, e.func, is_local)
+    if got is None:
+        return computed_display_items(repo, module, e, is_local)
+    fields, kind = got
+    if kind == "slice" or len(e.args) > len(fields):
+        return None
+    given = {p: a for (p, _, _), a in zip(fields, e.args)}
+    for kw in e.keywords:
+        if kw.arg in given or kw.arg not in {p for p, _, _ in fields}:
+            return None
+        given[kw.arg] = kw.value
+    items = []
+    for p_, attr, default in fields:
+        v = given.get(p_, default)
+        if v is None:
+            return None
+        items.append((attr, v))
+    return kind, items
+
+
+def fold_record_parts(repo, module, e: ast.AST, is_local=None) -> ast.AST:
+    """`_Family(TAG, F, AF).fmt` -> F, `(a, b)[1]` -> b inside e (a fresh copy): a part of a record display is the expression it was built from"""
+    class Fold(ast.NodeTransformer):
+        def visit_Attribute(self, n):
+            self.generic_visit(n)
+            rec = display_items(repo, module, n.value, is_local) if isinstance(n.value, ast.Call) else None
+            x = _pick(rec[0], rec[1], n) if rec is not None else None
+            return clone(x) if x is not None else n
+
+        def visit_Subscript(self, n):
+            self.generic_visit(n)
+            rec = display_items(repo, module, n.value, is_local) if isinstance(n.value, (ast.Call, ast.Tuple, ast.List)) and not isinstance(n.slice, ast.Slice) else None
+            x = _pick(rec[0], rec[1], n) if rec is not None else None
+            return clone(x) if x is not None else n
+    return Fold().visit(e)
+
+
+def _expand_comprehension(repo, fi: FuncInfo, k: ClassInfo | None, e: ast.AST, is_local) -> ast.AST | None:
+    """
+    The display a comprehension over a constant table (or over range(<constants>)) denotes: one generator, no filter, the element
+    expression is evaluated per entry by substitution (parts of record displays and arithmetic on literals are folded).  None when the
+    entries are not known or an element still mentions a loop variable in a way that is not a plain substitution.
+    """
+    if len(e.generators) != 1:
+        return None
+    g = e.generators[0]
+    if g.ifs or g.is_async:
+        return None
+    it = strip_cast(g.iter)
+    entries = None
+    if isinstance(it, ast.Call) and chain(it.func) == "range" and 1 <= len(it.args) <= 3 and not it.keywords:
+        vals = [repo.resolve_const(fi.module, a, k) for a in it.args]
+        if all(isinstance(v, int) and not isinstance(v, bool) for v in vals):
+            try:
+                r = range(*vals)
+            except ValueError:
+                return None
+            if len(r) <= 256:
+                entries = [ast.Constant(value=i) for i in r]
+    else:
+        entries = table_entries(lambda x: const_display(repo, fi, k, x), it)
+    if entries is None or len(entries) > 256:
+        return None
+    tnames = [n.id for n in ast.walk(g.target) if isinstance(n, ast.Name)]
+
+    def bind(tgt, val, out) -> bool:
+        val = strip_cast(val)
+        if isinstance(tgt, ast.Name):
+            out[tgt.id] = val
+            return True
+        if isinstance(tgt, (ast.Tuple, ast.List)) and not any(isinstance(x, ast.Starred) for x in tgt.elts):
+            rec = display_items(repo, fi.module, val, is_local)
+            if rec is not None and rec[0] == "tuple" and len(rec[1]) == len(tgt.elts):
+                return all(bind(t, v, out) for t, (_, v) in zip(tgt.elts, rec[1]))
+        return False
+
+    def inst(x: ast.AST, mapping) -> ast.AST | None:
+        if any(isinstance(n, (ast.Lambda, ast.ListComp, ast.GeneratorExp, ast.SetComp, ast.DictComp, ast.NamedExpr, ast.Await)) for n in ast.walk(x)):
+            return None
+        y = ast.fix_missing_locations(_SubstNames(mapping).visit(clone(x)))
+        y = fold_consts(repo, fi.module, fold_record_parts(repo, fi.module, y, is_local))
+        return y
+    keys, vals = [], []
+    for ent in entries:
+        mapping: dict = {}
+        if not bind(g.target, ent, mapping) or set(mapping) != set(tnames):
+            return None
+        if isinstance(e, ast.DictComp):
+            kx, vx = inst(e.key, mapping), inst(e.value, mapping)
+            if kx is None or vx is None:
+                return None
+            keys.append(kx)
+            vals.append(vx)
+        else:
+            vx = inst(e.elt, mapping)
+            if vx is None:
+                return None
+            vals.append(vx)
+    if isinstance(e, ast.DictComp):
+        out = ast.Dict(keys=keys, values=vals)
+    elif isinstance(e, ast.SetComp):
+        out = ast.Set(elts=vals)
+    else:
+        out = ast.Tuple(elts=vals, ctx=ast.Load())
+    return ast.fix_missing_locations(ast.copy_location(out, e))
+
+
 def _pick(kind: str, items: list, e: ast.AST):
     """the part of a record (kind, [(attribute | None, x)]) that `<rec>.attr` / `<rec>[i]` selects; None when it selects none"""
     if isinstance(e, ast.Attribute):
@@ -232,6 +508,100 @@ def _pick(kind: str, items: list, e: ast.AST):
         if isinstance(i, int) and not isinstance(i, bool) and -len(items) <= i < len(items):
             return items[i][1]
     return None
+
+
+def _ctor_stores(cls: ClassInfo, fn: FuncInfo, mapping: dict | None = None, depth: int = 0) -> list[tuple[str, ast.AST]]:
+    """
+    (attribute, value expression) of every `self.<attribute> = value` a constructor performs, in source order, INCLUDING the stores made by
+    helper methods it calls on itself (`self._init_prefix(fmt)`, `Base._init_prefix(self, fmt)`, `super()._init_prefix(fmt)`: a mixin / base
+    class method or a private method of the class): the helper's parameters are replaced by the caller's argument expressions, so the value
+    reads as if the store were written in the constructor.
+    """
+    out: list[tuple[str, ast.AST]] = []
+    mapping = mapping or {}
+
+    def sub(e: ast.AST) -> ast.AST:
+        e = strip_cast(e)
+        if not mapping:
+            return e
+
+        class S(ast.NodeTransformer):
+            def visit_Name(self, n: ast.Name):
+                if isinstance(n.ctx, ast.Load) and n.id in mapping:
+                    return clone(mapping[n.id])
+                return n
+        return strip_cast(ast.fix_missing_locations(S().visit(clone(e))))
+    for s in sorted((x for x in walk_no_nested(fn.node) if isinstance(x, ast.stmt) and x is not fn.node), key=lambda x: (x.lineno, x.col_offset)):
+        if isinstance(s, (ast.Assign, ast.AnnAssign)) and s.value is not None:
+            tg = s.targets[0] if isinstance(s, ast.Assign) else s.target
+            c = chain(tg)
+            if isinstance(tg, ast.Attribute) and c and c.startswith("self.") and c.count(".") == 1:
+                out.append((tg.attr, sub(s.value)))
+                continue
+        v = strip_cast(s.value) if isinstance(s, (ast.Expr, ast.Assign, ast.AnnAssign)) and getattr(s, "value", None) is not None else None
+        if isinstance(v, ast.Call) and isinstance(v.func, ast.Attribute) and depth < 3 and v.func.attr != "__init__" \
+                and not any(isinstance(a, ast.Starred) for a in v.args) and not any(k.arg is None for k in v.keywords):
+            recv, args = v.func.value, list(v.args)
+            target = None
+            if isinstance(recv, ast.Name) and recv.id == "self":
+                target = cls.lookup(v.func.attr)
+            elif chain(recv) == "super()" and fn.cls is not None:
+                mro = cls.mro()
+                after = mro[mro.index(fn.cls) + 1:] if fn.cls in mro else []
+                target = next((k.methods[v.func.attr] for k in after if v.func.attr in k.methods), None)
+            elif isinstance(recv, ast.Name) and args and chain(args[0]) == "self":
+                k = next((k for k in cls.mro() if k.name == recv.id), None)
+                target = k.lookup(v.func.attr) if k is not None else None
+                args = args[1:]
+            if target is None or target.node is fn.node:
+                continue
+            a = target.node.args
+            if a.vararg or a.kwarg:
+                continue
+            params = [x.arg for x in a.posonlyargs + a.args][1:]
+            if len(args) > len(params):
+                continue
+            bound = {p: sub(x) for p, x in zip(params, args)}
+            for kw in v.keywords:
+                bound[kw.arg] = sub(kw.value)
+            defaults = dict(zip(params[len(params) - len(a.defaults):], a.defaults)) if a.defaults else {}
+            for p_ in params:
+                if p_ not in bound and p_ in defaults:
+                    bound[p_] = strip_cast(defaults[p_])
+            out.extend(_ctor_stores(cls, target, bound, depth + 1))
+    return out
+
+
+def property_expr(cls: ClassInfo, attr: str) -> ast.AST | None:
+    """
+    The expression a read-only view `self.<attr>` stands for: <attr> is a @property (without setter / deleter, never stored into) of the
+    class whose getter is a single `return <expression>` - reading the attribute IS evaluating that expression on the same object.
+    """
+    f = cls.lookup(attr)
+    if f is None or not isinstance(f, FuncInfo):
+        return None
+    decos = {d.split(".")[-1] for d in f.decorator_names()}
+    if not decos or not decos <= {"property", "cached_property"} or len(f.params()) != 1:
+        return None
+    for k in cls.mro():
+        for st in k.node.body:
+            if isinstance(st, (ast.FunctionDef, ast.AsyncFunctionDef)) and st.name == attr and st is not f.node:
+                return None               # a setter / deleter / another definition of the name
+    body = [st for st in f.node.body if not (isinstance(st, ast.Expr) and isinstance(st.value, ast.Constant))]
+    if len(body) != 1 or not isinstance(body[0], ast.Return) or body[0].value is None:
+        return None
+    e = strip_cast(body[0].value)
+    me = f.params()[0]
+    if any(isinstance(n, (ast.Call, ast.Lambda, ast.Await, ast.NamedExpr, ast.ListComp, ast.GeneratorExp, ast.Yield)) for n in ast.walk(e)):
+        return None
+    if any(isinstance(n, ast.Name) and n.id != me and n.id in {"self", "cls"} for n in ast.walk(e)):
+        return None
+    if me != "self":
+        class R(ast.NodeTransformer):
+            def visit_Name(self, n: ast.Name):
+                return ast.copy_location(ast.Name(id="self", ctx=n.ctx), n) if n.id == me else n
+        e = ast.fix_missing_locations(R().visit(clone(e)))
+    return e
 
 
 class PackerModel:
@@ -248,22 +618,26 @@ class PackerModel:
                 if i is None:
                     continue
                 stored = {}
-                for s in sorted((x for x in walk_no_nested(i.node) if isinstance(x, ast.stmt)), key=lambda x: x.lineno):
-                    if isinstance(s, ast.Assign) and chain(s.targets[0]) and chain(s.targets[0]).startswith("self."):
-                        v = strip_cast(s.value)
-                        a = s.targets[0].attr
-                        if isinstance(v, ast.Name):
-                            stored[v.id] = a
-                        if isinstance(v, ast.Attribute) and isinstance(v.value, ast.Call) and chain(v.value.func) in ("Struct", "struct.Struct") and v.attr == "size":
-                            src = v.value.args[0]
-                            self.size_attr[a] = f"size({self._fmt_text(src, stored)})"
-                        if isinstance(v, ast.Call) and chain(v.func) in ("calcsize", "struct.calcsize"):
-                            self.size_attr[a] = f"size({self._fmt_text(v.args[0], stored)})"
-                        if isinstance(v, ast.Call) and chain(v.func) in ("Struct", "struct.Struct") and len(v.args) == 1:
-                            self.struct_attr[a] = v.args[0] if isinstance(const_value(v.args[0]), str) else self._fmt_text(v.args[0], stored)
-                        if isinstance(v, ast.Attribute) and chain(v) and chain(v).startswith("self.") and chain(v).count(".") == 2 and v.attr == "size" \
-                                and v.value.attr in self.struct_attr:
-                            self.size_attr[a] = self.struct_size_text(v.value.attr)
+                for a, v in _ctor_stores(cls, i):
+                    if isinstance(v, ast.Name):
+                        stored[v.id] = a
+                    if isinstance(v, ast.Attribute) and isinstance(v.value, ast.Call) and chain(v.value.func) in ("Struct", "struct.Struct") and v.attr == "size":
+                        src = v.value.args[0]
+                        self.size_attr[a] = f"size({self._fmt_text(src, stored)})"
+                    if isinstance(v, ast.Call) and chain(v.func) in ("calcsize", "struct.calcsize"):
+                        self.size_attr[a] = f"size({self._fmt_text(v.args[0], stored)})"
+                    if isinstance(v, ast.Call) and chain(v.func) in ("Struct", "struct.Struct") and len(v.args) == 1:
+                        self.struct_attr[a] = v.args[0] if isinstance(const_value(v.args[0]), str) else self._fmt_text(v.args[0], stored)
+                    if isinstance(v, ast.Attribute) and chain(v) and chain(v).startswith("self.") and chain(v).count(".") == 2 and v.attr == "size" \
+                            and v.value.attr in self.struct_attr:
+                        self.size_attr[a] = self.struct_size_text(v.value.attr)
+
+    def property_value(self, attr: str, depth: int = 0) -> ast.AST | None:
+        """
+        The expression a read-only view `self.<attr>` stands for: <attr> is a @property (no setter) of the packer class whose getter is a
+        single `return <expression over self>` - reading the attribute IS evaluating that expression on the same object.
+        """
+        return property_expr(self.cls, attr)
 
     @staticmethod
     def _fmt_text(e: ast.AST, stored: dict[str, str]) -> str:
@@ -355,6 +729,8 @@ class UnpackRun:
         self.blind: str | None = None           # set when the buffer is used in a way this run does not account for (bytes may be read unseen)
         self.open_tag: str | None = None        # under an assumed tag: a condition that depends on the tag byte but could not be evaluated
         self.n_out: int | None = 0              # number of values delivered on this path so far (None: not decidable)
+        self._prop_depth = 0
+        self.pending_exc: str | None = None     # the exception with which the previous statement was left (EAFP lookups), until a handler takes it
 
     _COPIED = ("env", "reads", "wire", "read_of", "tuples", "loops", "seen", "delegates", "delegate_fmts", "bind", "conds", "convs", "byte_of", "frames", "memo",
                "recs")
@@ -419,7 +795,7 @@ class UnpackRun:
             return None
         got = record_fields_of_callee(self.pm.ctx.repo, self.fi.module, e.func, self._is_local)
         if got is None:
-            return None
+            return computed_display_items(self.pm.ctx.repo, self.fi.module, e, self._is_local)
         fields, kind = got
         pos = list(e.args)
         if kind == "slice" and len(pos) == 1 and not e.keywords:
@@ -456,7 +832,8 @@ class UnpackRun:
             return None
         got = record_fields_of_callee(self.pm.ctx.repo, self.fi.module, e.func, self._is_local)
         if got is None:
-            return None
+            comp = computed_display_items(self.pm.ctx.repo, self.fi.module, e, self._is_local) if self.closed(e) else None
+            return None if comp is None else (comp[0], [(a_, self.value_of(x)) for a_, x in comp[1]])
         fields, kind = got
         pos = self._arg_values(e.args)
         if pos is None:
@@ -510,7 +887,7 @@ class UnpackRun:
         return False, None
 
     def _is_local(self, name: str) -> bool:
-        return name in self.fi.params() or bool(local_defs(self.fi, name))
+        return name in self.fi.params() or name.startswith("\0") or bool(local_defs(self.fi, name))
 
     def closed(self, e: ast.AST) -> bool:
         """e mentions no local of the current function (so it means the same wherever it is evaluated on this path)."""
@@ -524,7 +901,8 @@ class UnpackRun:
             return False
         if isinstance(e, ast.Call):
             if any(isinstance(a, ast.Starred) for a in e.args) or any(k.arg is None for k in e.keywords) \
-                    or record_fields_of_callee(self.pm.ctx.repo, self.fi.module, e.func, self._is_local) is None:
+                    or (record_fields_of_callee(self.pm.ctx.repo, self.fi.module, e.func, self._is_local) is None
+                        and computed_display_items(self.pm.ctx.repo, self.fi.module, e, self._is_local) is None):
                 return False
             return all(self._call_free(x) for x in [*e.args, *[k.value for k in e.keywords]])
         return all(self._call_free(x) for x in ast.iter_child_nodes(e))
@@ -793,13 +1171,17 @@ class UnpackRun:
 
     def _struct_key(self, e: ast.AST) -> str | None:
         """key of the precompiled struct e denotes: `self.X` / a module or class constant / an inline `Struct(fmt)` / a local holding one"""
-        k = self.pm.struct_of(e)
+        k = self.pm.struct_of(e) if not ("self" in self.bind and (chain(e) or "").startswith("self.")) else None
         if k is not None:
             return k
         e = strip_cast(e)
         k = self.pm.struct_of_call(e, self.subst)
         if k is not None:
             return k
+        if isinstance(e, (ast.Attribute, ast.Subscript)):
+            b = self.subst(e)          # `family.body` / `self.body` of a bound record display whose part is `Struct(">4sH")`; an entry of a table of structs
+            if b is not e:
+                return self.pm.struct_of(b) or self.pm.struct_of_call(b, self.subst)
         if isinstance(e, ast.Name) and self._is_local(e.id) and e.id not in self.fi.params():
             d = single_def(self.fi, e.id)
             if d is not None and d[1] is None:
@@ -857,6 +1239,15 @@ class UnpackRun:
                 v = self.pm.size_attr[a]
                 m = re.fullmatch(r"size\('([^']*)'\)", v)
                 return Lin(struct.calcsize(m.group(1))) if m else Lin.sym(v)
+            if chain(e).count(".") == 1 and "self" not in self.bind:
+                # a read-only @property view (`length_size` -> `self._prefix.size`): the expression its getter returns, on the same object
+                pe = self.pm.property_value(a)
+                if pe is not None and self._prop_depth < 4:
+                    self._prop_depth += 1
+                    try:
+                        return self.lin(pe)
+                    finally:
+                        self._prop_depth -= 1
             return Lin.sym(chain(e))
         if isinstance(e, ast.Call) and chain(e.func) in ("calcsize", "struct.calcsize") and len(e.args) == 1:
             return self.pm.fmt_size(self.subst(e.args[0]))
@@ -1154,7 +1545,7 @@ class UnpackRun:
                 self.wire[nm] = str(val[1])
 
     # ---- followed helpers: a frame per call, sharing the reads / conditions of the path
-    def push_frame(self, callee: FuncInfo, call: ast.Call, skip_first: bool) -> None:
+    def push_frame(self, callee: FuncInfo, call: ast.Call, skip_first: bool, recv_value: ast.AST | None = None) -> None:
         a = callee.node.args
         if a.vararg or a.kwarg or any(isinstance(x, ast.Starred) for x in call.args) or any(k.arg is None for k in call.keywords):
             raise Unknown(f"call of helper {callee.qualname} with * / **")
@@ -1200,6 +1591,8 @@ class UnpackRun:
                 recs[prm] = (val[1], list(val[2]))
             else:
                 bind[prm] = val[1]
+        if recv_value is not None and recv is not None:
+            bind[recv] = recv_value       # a method of a record object held in a constant table: its `self` is that display
         self.frames.append((self.fi, self.data, self.off, self.env, self.tuples, self.bind, self.wire, recv, self.recs, self.out))
         self.fi, self.data, self.off, self.out = callee, (data if data is not None else "\0no buffer"), None, out
         self.env, self.tuples, self.bind, self.wire, self.recs = env, tuples, bind, {}, recs
@@ -1433,7 +1826,7 @@ def _followable(run: UnpackRun, call: ast.Call, need_buffer: bool = True):
         return None
     repo = run.pm.ctx.repo
     k = run.fi.cls or (run.frames[0][0].cls if run.frames else None) or run.pm.cls
-    target, implicit = None, False
+    target, implicit, recv_value = None, False, None
     if isinstance(f, ast.Name):
         if run._is_local(f.id):
             return None
@@ -1442,6 +1835,17 @@ def _followable(run: UnpackRun, call: ast.Call, need_buffer: bool = True):
             target = r
         elif r is None and k is not None and k.lookup(f.id) is not None:
             target = k.lookup(f.id)       # a function of the class body, referenced by a class-level table: called with an explicit receiver
+    elif isinstance(f, ast.Attribute) and isinstance(f.value, (ast.Name, ast.Subscript, ast.Attribute)) and run.subst(f.value) is not strip_cast(f.value) \
+            and record_class_of_display(repo, run.fi.module, run.subst(f.value), run._is_local) is not None:
+        # a method of a record object taken from a constant table (`family.decode(data, offset)`): run with `self` standing for that display
+        recv_value = run.subst(f.value)
+        if not run.closed(recv_value):
+            return None
+        target = record_class_of_display(repo, run.fi.module, recv_value, run._is_local).lookup(f.attr)
+        decos = {d.split(".")[-1] for d in target.decorator_names()} if target is not None else set()
+        if decos:
+            return None
+        implicit = True
     elif isinstance(f, ast.Attribute) and isinstance(f.value, ast.Name):
         if f.value.id in ("self", "cls") and k is not None:
             target = k.lookup(f.attr)
@@ -1455,7 +1859,7 @@ def _followable(run: UnpackRun, call: ast.Call, need_buffer: bool = True):
     if not need_buffer and (target.module is not run.fi.module or target.node is run.fi.node or any(fr[0].node is target.node for fr in run.frames)
                             or target.name in ("__init__", "unpack", "pack")):
         return None
-    return target, implicit
+    return target, implicit, recv_value
 
 
 def _call_of(st: ast.AST):
@@ -1475,6 +1879,19 @@ def _step(ctx: Ctx, pm: PackerModel, run: UnpackRun, node, lab, depth: int) -> l
     """One CFG node of a path; several successors when a constant table / a followed helper makes the path fork."""
     a = node.ast
     if a is None:
+        return [run]
+    if node.kind == "stmt" and lab == "exc":
+        eafp = _eafp_lookup(run, a)
+        if eafp is not None:
+            return eafp
+    if node.kind == "handler" and isinstance(a, ast.ExceptHandler):
+        if run.pending_exc is not None:
+            names = [] if a.type is None else [(chain(x) or "?").split(".")[-1] for x in (a.type.elts if isinstance(a.type, ast.Tuple) else [a.type])]
+            if a.type is not None and not any(n in _EXC_PARENTS.get(run.pending_exc, (run.pending_exc, "Exception", "BaseException")) for n in names):
+                raise _Infeasible           # this handler does not take the exception the statement was left with
+            run.pending_exc = None
+        if a.name:
+            run.assign(a.name, None)
         return [run]
     if node.kind in ("cond", "stmt"):
         forks = _with_lookups_resolved(run, a)
@@ -1549,46 +1966,7 @@ def _step_one(ctx: Ctx, pm: PackerModel, run: UnpackRun, node, lab, depth: int) 
         call, tgt, kind = cc
         fol = _followable(run, call)
         if fol is not None:
-            if depth >= 3:
-                raise Unknown(f"helper calls nested deeper than 3 at `{norm(call)[:50]}`")
-            callee, implicit = fol
-            run.seen.append(call)
-            for x in list(call.args) + [k.value for k in call.keywords]:
-                if run.out is not None and chain(x) == run.out:
-                    continue              # the unpack list handed to the followed helper: what it delivers is counted inside
-                if run.data is not None and chain(x) == run.data:
-                    continue              # the buffer handed to the followed helper: what it reads is recorded inside
-                run.scan_reads(x)
-            sub = run.clone()
-            sub.push_frame(callee, call, implicit)
-            out = []
-            for fin, err in _exec_paths(ctx, pm, callee, sub, depth + 1):
-                if err:
-                    raise Unknown(f"in helper {callee.qualname}: {err[len('unknown: '):] if err.startswith('unknown: ') else err}")
-                vals = fin.retvals
-                if kind == "return" and fin.frames:
-                    fin.finish_frame(None)          # `return helper(..)` inside a followed helper: hand the value on to its caller
-                    fin.retvals = vals
-                elif kind == "return":
-                    if not (isinstance(vals, tuple) and vals[0] == "lin"):
-                        raise Unknown(f"helper {callee.qualname} does not return an offset to `{norm(a)[:40]}`")
-                    fin.ret, fin.ret_node = vals[1], a
-                elif kind == "assign":
-                    if isinstance(vals, tuple) and vals[0] == "rec" and vals[1] == "tuple" and isinstance(tgt, (ast.Tuple, ast.List)):
-                        vals = [v for _, v in vals[2]]          # `a, b = helper(..)` where the helper returns a NamedTuple
-                    if isinstance(tgt, (ast.Tuple, ast.List)):
-                        if isinstance(vals, list) and len(vals) == len(tgt.elts):
-                            for t, v in zip(tgt.elts, vals):
-                                fin.assign(norm(t), v)
-                        else:
-                            for t in tgt.elts:
-                                fin.assign(norm(t), None)
-                    elif isinstance(vals, list):
-                        fin.assign(norm(tgt), ("rec", "tuple", [(None, v) for v in vals]))     # `pair = helper(..)` returning `(a, b)`
-                    else:
-                        fin.assign(norm(tgt), vals if isinstance(vals, tuple) else None)
-                out.append(fin)
-            return out
+            return _follow_buffer_call(ctx, pm, run, a, call, tgt, kind, fol, depth)
         elif kind in ("assign", "return") and depth < 3:
             # a helper that sees neither the buffer nor the unpack list (a decision / offset arithmetic that a loop or early returns kept the
             # normaliser from inlining): its paths are run on copies, with the conditions decided under the same assumptions; if anything in it
@@ -1598,6 +1976,22 @@ def _step_one(ctx: Ctx, pm: PackerModel, run: UnpackRun, node, lab, depth: int) 
                 res = _follow_pure(ctx, pm, run, a, call, tgt, kind, pure, depth)
                 if res is not None:
                     return res
+    hoist = _nested_buffer_call(run, a)
+    if hoist is not None:
+        # `out.append(helper(data, offset))` / `return offset + helper(data, offset)`: the one nested call that receives the buffer is evaluated
+        # first into a temporary (nothing else in the statement touches the buffer), then the statement is run on the temporary
+        call, fol = hoist
+        run.fresh += 1
+        tmp = f"\0ret{run.fresh}"
+        fins = _follow_buffer_call(ctx, pm, run, a, call, ast.Name(id=tmp, ctx=ast.Store()), "assign", fol, depth)
+        fake = _StmtNode(_replace_in_copy(a, call, ast.Name(id=tmp, ctx=ast.Load())))
+        out = []
+        for fin in fins:
+            try:
+                out.extend(_step(ctx, pm, fin, fake, lab, depth))
+            except _Infeasible:
+                continue
+        return out
     if isinstance(a, ast.Return) and run.frames:
         run.finish_frame(a)
         return [run]
@@ -1605,8 +1999,151 @@ def _step_one(ctx: Ctx, pm: PackerModel, run: UnpackRun, node, lab, depth: int) 
     return [run]
 
 
+class _StmtNode:
+    """stand-in for a CFG statement node (a statement rewritten on the fly)"""
+    kind = "stmt"
+
+    def __init__(self, a: ast.AST) -> None:
+        self.ast = a
+
+
+_EAGER_PARENTS = (ast.Call, ast.keyword, ast.Attribute, ast.Subscript, ast.Tuple, ast.List, ast.BinOp, ast.UnaryOp, ast.Starred, ast.Compare, ast.JoinedStr,
+                  ast.FormattedValue, ast.Expr, ast.Assign, ast.AnnAssign, ast.AugAssign, ast.Return, ast.Slice, ast.Dict, ast.Set)
+
+
+def _nested_buffer_call(run: UnpackRun, a: ast.AST):
+    """(call, followable) when statement `a` contains exactly one call of a followable helper that receives the buffer / the unpack list, the
+    call is evaluated unconditionally, is not the whole value of the statement, and nothing else in the statement mentions the buffer."""
+    if not isinstance(a, (ast.Assign, ast.AnnAssign, ast.AugAssign, ast.Expr, ast.Return)) or getattr(a, "value", None) is None:
+        return None
+    whole = strip_cast(a.value)
+    found = []
+    for c in ast.walk(a.value):
+        if isinstance(c, ast.Call) and c is not whole:
+            passed = [chain(x) for x in list(c.args) + [k.value for k in c.keywords]]
+            if not ((run.data is not None and run.data in passed) or (run.out is not None and run.out in passed)):
+                continue
+            fol = _followable(run, c)
+            if fol is not None:
+                found.append((c, fol))
+    if len(found) != 1:
+        return None
+    call, fol = found[0]
+    inside = {id(n) for n in ast.walk(call)}
+    for n in ast.walk(a):
+        if isinstance(n, ast.Name) and n.id == run.data and id(n) not in inside:
+            return None
+    cur = call
+    while cur is not a:
+        par = getattr(cur, "_parent", None)
+        if par is None or not isinstance(par, _EAGER_PARENTS):
+            return None
+        if isinstance(par, ast.Call) and par.func is cur:
+            return None
+        cur = par
+    return call, fol
+
+
+def _replace_in_copy(a: ast.AST, target: ast.AST, new: ast.AST) -> ast.AST:
+    """a structural copy of statement `a` in which the node corresponding to `target` is replaced by `new` (parent links set, position kept)"""
+    c = clone(a)
+    orig, cp = list(ast.walk(a)), list(ast.walk(c))
+    twin = cp[next(i for i, n in enumerate(orig) if n is target)]
+    ast.copy_location(new, target)
+
+    class R(ast.NodeTransformer):
+        def visit(self, n):
+            return new if n is twin else super().visit(n)
+    c = ast.fix_missing_locations(R().visit(c))
+    set_parents(c)
+    c._parent = getattr(a, "_parent", None)
+    return c
+
+
+def _eafp_lookup(run: UnpackRun, a: ast.AST):
+    """
+    `x = TABLE[key]` (TABLE a constant dict, key a plain name) left BY ITS EXCEPTIONAL EDGE: the only operation that can raise is the lookup, so
+    the key is not in the table (KeyError) and nothing was bound.  Under an assumed tag / a bound constant key that IS in the table this
+    path does not exist.  Returns the successor runs, or None when the statement is not such a lookup.
+    """
+    if not isinstance(a, (ast.Assign, ast.AnnAssign)) or a.value is None:
+        return None
+    v = strip_cast(a.value)
+    if not (isinstance(v, ast.Subscript) and isinstance(strip_cast(v.slice), (ast.Name, ast.Constant))):
+        return None
+    t = run.table_lookup(v)
+    if t is None or not t[3]:
+        return None
+    d, key = t[0], t[1]
+    if run.assume is not None and run._tag_byte(key):
+        vals, tag = run.assume
+        tvs = [run._tagval(k) for k in d.keys]
+        if all(tv is not None for tv in tvs) and vals.get(tag, _NOTAG) in tvs:
+            raise _Infeasible
+    else:
+        sk = run.subst(key)
+        if sk is not strip_cast(key) or isinstance(sk, ast.Constant):
+            if any(run._closed_equal(sk, run.subst(k)) is True for k in d.keys):
+                raise _Infeasible
+    run.seen.append(a.value)
+    for tg in (a.targets if isinstance(a, ast.Assign) else [a.target]):
+        for n in ast.walk(tg):
+            if isinstance(n, ast.Name):
+                run.assign(n.id, None)
+    run.pending_exc = "KeyError"
+    return [run]
+
+
+_EXC_PARENTS = {"KeyError": ("KeyError", "LookupError", "Exception", "BaseException"),
+                "IndexError": ("IndexError", "LookupError", "Exception", "BaseException")}
+
+
+def _follow_buffer_call(ctx: Ctx, pm: PackerModel, run: UnpackRun, a, call: ast.Call, tgt, kind: str, fol, depth: int) -> list[UnpackRun]:
+    """A helper that receives the data buffer / the unpack list: its paths are run in a frame of their own, on the same reads / conditions."""
+    if depth >= 3:
+        raise Unknown(f"helper calls nested deeper than 3 at `{norm(call)[:50]}`")
+    callee, implicit, recv_value = fol
+    run.seen.append(call)
+    for x in list(call.args) + [k.value for k in call.keywords]:
+        if run.out is not None and chain(x) == run.out:
+            continue              # the unpack list handed to the followed helper: what it delivers is counted inside
+        if run.data is not None and chain(x) == run.data:
+            continue              # the buffer handed to the followed helper: what it reads is recorded inside
+        run.scan_reads(x)
+    sub = run.clone()
+    sub.push_frame(callee, call, implicit, recv_value)
+    out = []
+    for fin, err in _exec_paths(ctx, pm, callee, sub, depth + 1):
+        if err:
+            raise Unknown(f"in helper {callee.qualname}: {err[len('unknown: '):] if err.startswith('unknown: ') else err}")
+        vals = fin.retvals
+        if kind == "return" and fin.frames:
+            fin.finish_frame(None)          # `return helper(..)` inside a followed helper: hand the value on to its caller
+            fin.retvals = vals
+        elif kind == "return":
+            if not (isinstance(vals, tuple) and vals[0] == "lin"):
+                raise Unknown(f"helper {callee.qualname} does not return an offset to `{norm(a)[:40]}`")
+            fin.ret, fin.ret_node = vals[1], a
+        elif kind == "assign":
+            if isinstance(vals, tuple) and vals[0] == "rec" and vals[1] == "tuple" and isinstance(tgt, (ast.Tuple, ast.List)):
+                vals = [v for _, v in vals[2]]          # `a, b = helper(..)` where the helper returns a NamedTuple
+            if isinstance(tgt, (ast.Tuple, ast.List)):
+                if isinstance(vals, list) and len(vals) == len(tgt.elts):
+                    for t, v in zip(tgt.elts, vals):
+                        fin.assign(norm(t), v)
+                else:
+                    for t in tgt.elts:
+                        fin.assign(norm(t), None)
+            elif isinstance(vals, list):
+                fin.assign(norm(tgt), ("rec", "tuple", [(None, v) for v in vals]))     # `pair = helper(..)` returning `(a, b)`
+            else:
+                fin.assign(norm(tgt), vals if isinstance(vals, tuple) else None)
+        out.append(fin)
+    return out
+
+
 def _follow_pure(ctx: Ctx, pm: PackerModel, run: UnpackRun, a, call: ast.Call, tgt, kind: str, pure, depth: int):
-    callee, implicit = pure
+    callee, implicit, recv_value = pure
     probe = run.clone()
     try:
         probe.seen.append(call)
@@ -1615,7 +2152,7 @@ def _follow_pure(ctx: Ctx, pm: PackerModel, run: UnpackRun, a, call: ast.Call, t
         if probe.blind is not None:
             return None
         sub = probe.clone()
-        sub.push_frame(callee, call, implicit)
+        sub.push_frame(callee, call, implicit, recv_value)
         out = []
         for fin, err in _exec_paths(ctx, pm, callee, sub, depth + 1):
             if err or fin.blind is not None:
@@ -1787,7 +2324,9 @@ class PackRun:
         if not isinstance(e, ast.Call) or self.pm is None or any(isinstance(a, ast.Starred) for a in e.args) or any(k.arg is None for k in e.keywords):
             return None
         got = record_fields_of_callee(self.pm.ctx.repo, self.fi.module, e.func, lambda nm: nm in self.fi.params() or bool(local_defs(self.fi, nm)))
-        if got is None or got[1] == "slice":
+        if got is None:
+            return computed_display_items(self.pm.ctx.repo, self.fi.module, e, lambda nm: nm in self.fi.params() or bool(local_defs(self.fi, nm)))
+        if got[1] == "slice":
             return None
         fields, kind = got
         if len(e.args) > len(fields):
@@ -1866,7 +2405,94 @@ class PackRun:
             return [("bytes", norm(e))]
         if isinstance(e, ast.Call) and call_name(e) in ("pack", "pack_serializable"):
             return [("delegate", norm(e), e)]
+        if isinstance(e, ast.Call):
+            followed = self._follow_call(e, st)
+            if followed is not None:
+                return followed
         return [("bytes", norm(e))]
+
+    depth = 0
+
+    def _follow_call(self, e: ast.Call, st: _PackState):
+        """
+        Pieces of the bytes a call returns when the callee is a function of /repo this run can read: a method of a record object taken from a
+        constant table (`family.encode(address)`, `self` standing for that display), a module-level function (also one moved to another
+        module), a method of the packer.  The callee's parameters stand for the caller's argument expressions; only a callee with exactly
+        one way to its `return` is followed (otherwise the call stays an opaque byte string, as before).
+        """
+        if self.pm is None or self.depth >= 3 or any(isinstance(a, ast.Starred) for a in e.args) or any(k.arg is None for k in e.keywords):
+            return None
+        repo = self.pm.ctx.repo
+
+        def is_local(nm: str) -> bool:
+            return nm in self.fi.params() or bool(local_defs(self.fi, nm))
+        f = strip_cast(e.func)
+        target, recv = None, None
+        if isinstance(f, ast.Attribute):
+            base = self.expand(f.value, st)
+            k = record_class_of_display(repo, self.fi.module, base, is_local)
+            if k is not None and self._closed(base):
+                target, recv = k.lookup(f.attr), base
+            elif isinstance(f.value, ast.Name) and f.value.id == "self" and "self" not in st.defs:
+                kk = self.fi.cls or self.pm.cls
+                target = kk.lookup(f.attr) if kk is not None else None
+                recv = f.value
+            if target is not None and target.decorator_names():
+                return None
+        elif isinstance(f, ast.Name) and not is_local(f.id) and f.id not in st.defs:
+            r = repo.resolve_name(self.fi.module, f.id)
+            target = r if isinstance(r, FuncInfo) and r.cls is None else None
+        if target is None or target.is_async or target.node is self.fi.node or target.name in ("pack", "unpack", "__init__") \
+                or any(isinstance(x, (ast.Yield, ast.YieldFrom)) for x in walk_no_nested(target.node)):
+            return None
+        a = target.node.args
+        if a.vararg or a.kwarg or a.kwonlyargs:
+            return None
+        params = [x.arg for x in a.posonlyargs + a.args]
+        bound: dict[str, ast.AST] = {}
+        if recv is not None:
+            if not params:
+                return None
+            bound[params[0]] = recv
+            params = params[1:]
+        if len(e.args) > len(params):
+            return None
+        for p_, x in zip(params, e.args):
+            bound[p_] = self.expand(x, st)
+        for kw in e.keywords:
+            if kw.arg in bound or kw.arg not in params:
+                return None
+            bound[kw.arg] = self.expand(kw.value, st)
+        defaults = dict(zip(params[len(params) - len(a.defaults):], a.defaults)) if a.defaults else {}
+        for p_ in params:
+            if p_ not in bound:
+                if p_ not in defaults:
+                    return None
+                bound[p_] = strip_cast(defaults[p_])
+        sub = PackRun(target, self.pm)
+        sub.depth = self.depth + 1
+        st0 = _PackState()
+        for p_, x in bound.items():
+            if not (isinstance(x, ast.Name) and x.id == p_):
+                st0.defs[p_] = x
+        if target.module is not self.fi.module:
+            # a helper that lives in another module: its private constants (a format string, a width) do not exist under that name in the
+            # caller's module - they are replaced by the literal they denote; names both modules know (shared tag constants) keep their name
+            own = set(target.params()) | {n.id for n in ast.walk(target.node) if isinstance(n, ast.Name) and isinstance(n.ctx, ast.Store)}
+            for n in ast.walk(target.node):
+                if isinstance(n, ast.Name) and isinstance(n.ctx, ast.Load) and n.id not in own and n.id not in st0.defs \
+                        and repo.resolve_name(self.fi.module, n.id) is None:
+                    cv = repo.resolve_const(target.module, n)
+                    if isinstance(cv, (str, bytes, int)) and not isinstance(cv, bool):
+                        st0.defs[n.id] = ast.Constant(value=cv)
+        try:
+            sub.block(target.node.body, [st0])
+        except AnalysisError:
+            return None
+        distinct = {tuple((p[0], p[1], tuple(p[2]) if p[0] == "struct" else None) for p in pcs) for _, pcs in sub.alts}
+        if len(distinct) != 1 or not sub.alts:
+            return None
+        return list(sub.alts[0][1])
 
     # ---- statements
     def block(self, stmts, states: list[_PackState]) -> list[_PackState]:
